@@ -116,7 +116,7 @@ def plain_clash(case: Dict[str, Any]) -> bool:
 class Loader:
     """Writes the emitted files into a private temp dir and loads them through the public Database API."""
 
-    PREFIX = "odxverif_c09_"
+    PREFIX = "c09hier_"
 
     def __init__(self) -> None:
         self.dir = tempfile.mkdtemp(prefix=f"{self.PREFIX}{os.getpid()}_", dir=self.base())
@@ -146,6 +146,8 @@ class Loader:
         db = Database()
         db.add_auxiliary_file("job.jar", io.BytesIO(b"job"))
         paths = []
+        if not os.path.isdir(self.dir):  # (somebody cleaned the temp area under our feet)
+            os.makedirs(self.dir, exist_ok=True)
         try:
             for fn, xml in files.items():
                 p = os.path.join(self.dir, fn)
